@@ -3,3 +3,4 @@ pub mod exec;
 pub mod probes;
 pub mod vm;
 pub mod weak;
+pub mod sched;
